@@ -807,6 +807,8 @@ class SymReal:
 
     def __index__(s):
         c = Ctx.cur
+        if z3.is_rational_value(s.e) and s.e.denominator_as_long() == 1:
+            return s.e.numerator_as_long()
         if s.ie is not None:
             return c.choose_int(s.ie)
         raise Realification("non-integer symbolic value used as an index")
@@ -858,7 +860,10 @@ def symarr(name, *shape):
 
 
 def ozeros(shape, dtype=None, **kw):
-    """object-dtype replacement for numpy.zeros (elements are symbolic zeros)"""
+    """object-dtype replacement for numpy.zeros (elements are symbolic zeros); integer / boolean
+    arrays stay concrete"""
+    if dtype is not None and dtype is not object and np.issubdtype(np.dtype(dtype), np.integer) or dtype is bool:
+        return np.zeros(shape, dtype=dtype)
     a = np.empty(shape, dtype=object)
     a.fill(SymReal(z3.RealVal(0)))
     return a
